@@ -22,6 +22,8 @@ DECIDED_R7 = ('Round 7: request.copy() keeps the memo of the buffered body; nobo
 DECIDED = DECIDED + ' ' + DECIDED_R7
 DECIDED_R8 = ('Round 8: the part reader is started once (no start can follow another) and its block size is the buffer size parameter.')
 DECIDED = DECIDED + ' ' + DECIDED_R8
+DECIDED_R9 = ('Round 9: the memo of the buffered body is dropped when `wsgi.input` is replaced through the request (e); one reader call per arm of a conditional expression is one start (d).')
+DECIDED = DECIDED + ' ' + DECIDED_R9
 NOT_DECIDED = 'nothing of the statement beyond the stated assumptions (PEP 3333 read contract; BytesIO/TemporaryFile semantics).'
 ASSUMPTIONS = ['wsgi.input.read(n) returns at most n bytes (PEP 3333)',
                'io.BytesIO / tempfile.TemporaryFile write/getvalue/seek behave as documented']
